@@ -128,7 +128,7 @@ pub fn gen_spec(rng: &mut Rng, o: &GenOpts) -> (Spec, PatClass) {
         rng.shuffle(&mut pats);
         let values: Vec<u64> = (0..pats.len() as u64).collect();
         return (
-            Spec { variant, kind, num_free_blocks: *rng.pick(&NFB_CHOICES), entry: Entry::WithValues, vtype: VType::U32, patterns: pats, values },
+            Spec { variant, kind, num_free_blocks: *rng.pick(&NFB_CHOICES), entry: Entry::WithValues, vtype: VType::U32, patterns: pats, values, ctor: false },
             PatClass::Wide,
         );
     }
@@ -150,7 +150,7 @@ pub fn gen_spec(rng: &mut Rng, o: &GenOpts) -> (Spec, PatClass) {
         rng.shuffle(&mut pats);
         let values: Vec<u64> = (0..pats.len() as u64).collect();
         return (
-            Spec { variant, kind, num_free_blocks: *rng.pick(&[1u32, 16, 16, 64]), entry: Entry::WithValues, vtype: VType::U32, patterns: pats, values },
+            Spec { variant, kind, num_free_blocks: *rng.pick(&[1u32, 16, 16, 64]), entry: Entry::WithValues, vtype: VType::U32, patterns: pats, values, ctor: false },
             PatClass::Wide,
         );
     }
@@ -176,7 +176,7 @@ pub fn gen_spec(rng: &mut Rng, o: &GenOpts) -> (Spec, PatClass) {
         rng.shuffle(&mut pats);
         let values: Vec<u64> = (0..pats.len() as u64).collect();
         return (
-            Spec { variant, kind, num_free_blocks: *rng.pick(&[1u32, 16, 64, 300, 1000, 1000]), entry: Entry::WithValues, vtype: VType::U32, patterns: pats, values },
+            Spec { variant, kind, num_free_blocks: *rng.pick(&[1u32, 16, 64, 300, 1000, 1000]), entry: Entry::WithValues, vtype: VType::U32, patterns: pats, values, ctor: false },
             PatClass::Wide,
         );
     }
@@ -214,6 +214,7 @@ pub fn gen_spec(rng: &mut Rng, o: &GenOpts) -> (Spec, PatClass) {
                 variant,
                 kind,
                 num_free_blocks: *rng.pick(&NFB_CHOICES),
+                ctor: false,
                 entry: Entry::WithValues,
                 vtype: VType::U32,
                 patterns: pats,
@@ -372,7 +373,13 @@ pub fn gen_spec(rng: &mut Rng, o: &GenOpts) -> (Spec, PatClass) {
             _ => (i as u64 % 3) * 1000,
         })
         .collect();
-    let num_free_blocks = *rng.pick(&NFB_CHOICES);
+    let mut num_free_blocks = *rng.pick(&NFB_CHOICES);
+    // a third of the standard-kind sets goes through the convenience constructors `new` /
+    // `with_values` of the automaton types (which imply the default builder settings)
+    let ctor = kind == Kind::Standard && rng.chance(1, 3);
+    if ctor {
+        num_free_blocks = crate::pma::DEFAULT_NFB;
+    }
     (
         Spec {
             variant,
@@ -382,6 +389,7 @@ pub fn gen_spec(rng: &mut Rng, o: &GenOpts) -> (Spec, PatClass) {
             vtype,
             patterns,
             values,
+            ctor,
         },
         class,
     )
